@@ -154,6 +154,8 @@ package sorted_set
 //@   ensures {C17} plain-last: updatePolicy == nil && comparison == nil && changed == nil && incr == nil && len(members) > 0 ==> set.members[members[len(members)-1].Value].Score == members[len(members)-1].Score
 //@   ensures {C17} nx-keeps: result1 == nil && updatePolicy != nil && lower(asstr(updatePolicy)) == "nx" ==> (forall v Value :: old(has(set.members, v)) ==> has(set.members, v) && set.members[v] == old(set.members[v]))
 //@   ensures {C17} xx-nonew: result1 == nil && updatePolicy != nil && lower(asstr(updatePolicy)) == "xx" ==> (forall v Value :: has(set.members, v) <==> old(has(set.members, v)))
+//@   ensures {C17} xx-updates: result1 == nil && updatePolicy != nil && lower(asstr(updatePolicy)) == "xx" && comparison == nil && incr == nil && len(members) == 1 && old(has(set.members, members[0].Value)) ==> set.members[members[0].Value].Score == members[0].Score
+//@   ensures {C17} plain-count: updatePolicy == nil && comparison == nil && changed == nil && incr == nil && len(members) == 1 ==> result0 == ((old(has(set.members, members[0].Value)) && old(set.members[members[0].Value].Score) == members[0].Score) ? 0 : 1)
 //@   ensures {C17} incr-new: result1 == nil && incr != nil && updatePolicy == nil && comparison == nil && len(members) == 1 && !old(has(set.members, members[0].Value)) ==> has(set.members, members[0].Value) && set.members[members[0].Value].Score == members[0].Score
 //@   ensures {C17} incr-existing: result1 == nil && incr != nil && updatePolicy == nil && comparison == nil && len(members) == 1 && old(has(set.members, members[0].Value)) ==> has(set.members, members[0].Value) && set.members[members[0].Value].Score == old(set.members[members[0].Value].Score) + members[0].Score
 //@   ensures {C17} incr-others: incr != nil && len(members) == 1 ==> (forall v Value :: v != members[0].Value ==> (has(set.members, v) <==> old(has(set.members, v))) && set.members[v] == old(set.members[v]))
@@ -170,6 +172,9 @@ package sorted_set
 //@     invariant -1 <= rangeindex && rangeindex < len(members) && inv(set, alloc) && inv(set, exists) && set.members == old(set.members)
 //@     invariant lower(policy) != "nx" && lower(policy) != "xx" ==> (forall i int :: 0 <= i && i <= rangeindex ==> has(set.members, members[i].Value))
 //@     invariant rangeindex == -1 ==> len(set.members) == old(len(set.members))
+//@     invariant rangeindex == -1 ==> count == 0
+//@     invariant rangeindex == 0 && lower(policy) != "nx" && lower(policy) != "xx" ==> count == ((old(has(set.members, members[0].Value)) && old(set.members[members[0].Value].Score) == members[0].Score) ? 0 : 1)
+//@     invariant rangeindex == 0 && lower(policy) == "xx" && comp == "" && old(has(set.members, members[0].Value)) ==> set.members[members[0].Value].Score == members[0].Score
 //@     invariant rangeindex == 0 && lower(policy) != "nx" && lower(policy) != "xx" ==> len(set.members) == old(len(set.members)) + (old(has(set.members, members[0].Value)) ? 0 : 1)
 //@     invariant lower(policy) != "nx" && lower(policy) != "xx" && lower(comp) != "lt" && lower(comp) != "gt" && rangeindex >= 0 ==> set.members[members[rangeindex].Value].Score == members[rangeindex].Score
 //@     invariant forall v Value :: !(exists i int :: 0 <= i && i <= rangeindex && members[i].Value == v) ==> (has(set.members, v) <==> old(has(set.members, v))) && set.members[v] == old(set.members[v])
